@@ -122,7 +122,8 @@ func (its *document) GetByPath(path string) (Document, errors.OrdaError) {
 
 func (its *document) patchEach(op jsondiff.Operation) errors.OrdaError {
 	// its.L().Infof("%v", op)
-	target, key, err := its.snapshot().getTargetFromPatch(op.Path.String())
+	start := its.snapshot()
+	target, key, err := start.getTargetFromPatchAt(start, op.Path.String())
 	if err != nil {
 		return err
 	}
